@@ -288,6 +288,14 @@ func c16ts(c *Ctx) {
 			c.R.Violation(idx, "timestamp", "C16/timestamp/"+feat+"/"+src, fmt.Sprintf("timestamp %q; expected %q (instant %s in %s, layout %q)", d.Time, t.Format(candidates[0]), ts.Format(time.RFC3339Nano), map[bool]string{true: "UTC", false: "its own zone"}[inUTC], candidates[0]), desc)
 			return
 		}
+		if layout == "" {
+			// a flag-selected layout must SHOW the parts its flags name: parsed with that very layout, they are the instant's
+			if why := flagTimestampProblem(d.Time, matched, t, fl); why != "" {
+				c.R.Violation(idx, "parse-back", "C16/parse-back/flag-layout", fmt.Sprintf("timestamp %q printed with the flag-selected layout %q (flags %s): %s", d.Time, matched, flagNames(fl), why), desc)
+				return
+			}
+			c.R.Add("flag_layout_parts_confirmed", 1)
+		}
 		_, zoff := t.Zone()
 		// a numeric zone in a layout has minute resolution: historical local-mean-time offsets (+00:53:28) cannot round-trip through any layout
 		if prec, inv := layoutInfo(matched); inv && zoff%60 == 0 {
@@ -306,6 +314,41 @@ func c16ts(c *Ctx) {
 			c.R.Sample(idx, desc, map[string]any{"printed": d.Time, "layout_used": matched})
 		}
 	})
+}
+
+// flagTimestampProblem parses a timestamp printed with a flag-selected layout and compares the parts the flags ask for
+// (date, time of day, microseconds, zone offset) with the instant as it should be shown. Empty string: fine.
+func flagTimestampProblem(printed, layout string, t time.Time, fl slog.Flags) string {
+	p, err := time.Parse(layout, printed)
+	if err != nil {
+		return fmt.Sprintf("%q does not parse with its own layout %q: %v", printed, layout, err)
+	}
+	needDate := fl&slog.Ldate != 0
+	needTime := fl&(slog.Ltime|slog.Lmicroseconds) != 0 && !(fl&(slog.Ldate|slog.Ltime|slog.Lmicroseconds) == slog.Ldate)
+	if fl&(slog.Ldate|slog.Ltime|slog.Lmicroseconds) == 0 {
+		needTime = true // no flag at all: some exported layout with at least the time of day
+	}
+	if needDate {
+		if y, m, d := p.Date(); y != t.Year() || m != t.Month() || d != t.Day() {
+			return fmt.Sprintf("date part reads %04d-%02d-%02d, the instant's is %04d-%02d-%02d", y, m, d, t.Year(), t.Month(), t.Day())
+		}
+	}
+	if needTime {
+		if p.Hour() != t.Hour() || p.Minute() != t.Minute() || p.Second() != t.Second() {
+			return fmt.Sprintf("time of day reads %02d:%02d:%02d, the instant's is %02d:%02d:%02d", p.Hour(), p.Minute(), p.Second(), t.Hour(), t.Minute(), t.Second())
+		}
+		if fl&slog.Lmicroseconds != 0 && p.Nanosecond()/1000 != t.Nanosecond()/1000 {
+			return fmt.Sprintf("microseconds read %06d, the instant's are %06d", p.Nanosecond()/1000, t.Nanosecond()/1000)
+		}
+		_, po := p.Zone()
+		_, to := t.Zone()
+		if strings.Contains(layout, "Z07") || strings.Contains(layout, "-07") {
+			if po != to-to%60 && po != to {
+				return fmt.Sprintf("zone offset reads %d s, the instant's is %d s", po, to)
+			}
+		}
+	}
+	return ""
 }
 
 func flagNames(f slog.Flags) string {
